@@ -508,7 +508,7 @@ def gen(specs, sub):
     outdir = os.path.join(V, 'corpus', sub)
     os.makedirs(outdir, exist_ok=True)
     for f in os.listdir(outdir):
-        if f.endswith('.patch'):
+        if f.endswith('.patch') and not f.startswith('ext_'):
             os.remove(os.path.join(outdir, f))
     for name, prop, rules, desc, edits in specs:
         files = {}
